@@ -20,7 +20,7 @@ use rand::{Rng, RngCore};
 use serde_json::json;
 
 use crate::circuits::{
-    assigned_cells, cell_value, mock_run, tamper_accepts, HashCircuit, Mock, SpongeCircuit, Step,
+    assigned_cells, cell_value, mock_run, tamper_accepts, tamper_accepts_at, HashCircuit, Mock, SpongeCircuit, Step,
     VarHashCircuit, F,
 };
 
@@ -539,6 +539,128 @@ fn run_tamper(ctx: &mut Ctx) {
     }
 }
 
+/// Consistent local forgeries of round rows: a hint / skipped-row cell is changed AND every cell
+/// the remaining constraints of the row tie to it is recomputed, so that only the constraint that
+/// *defines* the changed cell is violated. The row's gate must still reject; if it accepts, the
+/// cell is prover-chosen and the permutation output can be steered.
+fn run_forge(ctx: &mut Ctx) {
+    let mut rng = ctx.rng("poseidon-forge");
+    let (qf, qp) = poseidon_selectors();
+    let rf = PoseidonChip::<F>::nb_full_rounds();
+    let rp = PoseidonChip::<F>::nb_partial_rounds();
+    let skips = 5usize;
+    let inputs: Vec<F> = vec![F::random(&mut rng), F::random(&mut rng)];
+    let circuit = PHash::new(inputs.clone());
+    let Mock::Ran { mut prover, ok: true, .. } = mock_run(&circuit, 6) else { return };
+    let sel = prover.selectors().clone();
+    let full_rows: Vec<usize> = (0..sel[qf].len()).filter(|r| sel[qf][*r]).collect();
+    let part_rows: Vec<usize> = (0..sel[qp].len()).filter(|r| sel[qp][*r]).collect();
+    let mds = <F as PoseidonField>::MDS;
+    let rc = <F as PoseidonField>::ROUND_CONSTANTS;
+    // full rounds: hint_j += delta, outputs follow the linear layer
+    for (n, &r) in full_rows.iter().enumerate() {
+        if n + 1 == full_rows.len() {
+            continue; // the outputs of the last round are the (copied) result
+        }
+        for j in 0..W {
+            let delta = F::random(&mut rng);
+            let x = cell_value(&prover, j, r).unwrap();
+            let hint = cell_value(&prover, W + j, r).unwrap();
+            let mut cells = vec![(W + j, r, hint + delta)];
+            for i in 0..W {
+                let o = cell_value(&prover, i, r + 1).unwrap();
+                cells.push((i, r + 1, o + mds[i][j] * x.square() * delta));
+            }
+            ctx.count("forge:poseidon:full-round-hint");
+            if tamper_accepts_at(&mut prover, &cells, 0, Some(vec![r])) {
+                ctx.oracle_fail(
+                    "poseidon:forge-accepted:full-round-hint",
+                    "Poseidon full-round gate accepts a forged S-box hint with consistently recomputed outputs (the hint is not bound to x^3)",
+                    json!({"inputs": hexes(&inputs), "row": r, "cell": j, "delta": fe_hex(&delta)}),
+                );
+            }
+        }
+    }
+    // partial batches: skipped-row cell p_i += delta, later cells and outputs recomputed by raw rounds
+    for (b, &r) in part_rows.iter().enumerate() {
+        let round0 = rf / 2 + b * (1 + skips);
+        let st: Vec<F> = (0..W).map(|c| cell_value(&prover, c, r).unwrap()).collect();
+        for i in 0..skips {
+            let delta = F::random(&mut rng);
+            // raw shifted partial rounds with the last cell of skipped row `i` forced
+            let mut s = [st[0], st[1], st[2]];
+            let mut pows = vec![];
+            for t in 0..=skips {
+                let mut y = s;
+                y[W - 1] = y[W - 1].square().square() * y[W - 1];
+                let mut nx = rc[round0 + t + 1];
+                for a in 0..W {
+                    for c in 0..W {
+                        nx[a] += mds[a][c] * y[c];
+                    }
+                }
+                s = nx;
+                if t < skips {
+                    if t == i {
+                        s[W - 1] += delta;
+                    }
+                    pows.push(s[W - 1]);
+                }
+            }
+            let mut cells = vec![];
+            for (t, p) in pows.iter().enumerate() {
+                cells.push((W + t, r, *p));
+            }
+            for a in 0..W {
+                cells.push((a, r + 1, s[a]));
+            }
+            // sanity of the recomputation itself: delta = 0 must reproduce the honest cells
+            ctx.count("forge:poseidon:partial-skip-cell");
+            if b + 1 == part_rows.len() && rp % (1 + skips) != 0 {
+                continue;
+            }
+            if tamper_accepts_at(&mut prover, &cells, 0, Some(vec![r])) {
+                ctx.oracle_fail(
+                    "poseidon:forge-accepted:partial-skip-cell",
+                    "Poseidon partial-round gate accepts a forged skipped-row cell with consistently recomputed later cells and outputs",
+                    json!({"inputs": hexes(&inputs), "row": r, "skipped_row": i, "delta": fe_hex(&delta)}),
+                );
+            }
+        }
+        // control: the same recomputation without any change must be accepted (otherwise the
+        // forgery test above is vacuous)
+        {
+            let mut s = [st[0], st[1], st[2]];
+            let mut cells = vec![];
+            for t in 0..=skips {
+                let mut y = s;
+                y[W - 1] = y[W - 1].square().square() * y[W - 1];
+                let mut nx = rc[round0 + t + 1];
+                for a in 0..W {
+                    for c in 0..W {
+                        nx[a] += mds[a][c] * y[c];
+                    }
+                }
+                s = nx;
+                if t < skips {
+                    cells.push((W + t, r, s[W - 1]));
+                }
+            }
+            for a in 0..W {
+                cells.push((a, r + 1, s[a]));
+            }
+            ctx.count("forge:poseidon:partial-control");
+            if !tamper_accepts_at(&mut prover, &cells, 0, Some(vec![r])) {
+                ctx.oracle_fail(
+                    "poseidon:partial-row-not-raw-rounds",
+                    "the cells of a partial-round row are not the values of the raw partial rounds (honest recomputation rejected)",
+                    json!({"inputs": hexes(&inputs), "row": r}),
+                );
+            }
+        }
+    }
+}
+
 pub fn run(ctx: &mut Ctx) {
     run_perm(ctx);
     run_hash(ctx);
@@ -546,4 +668,5 @@ pub fn run(ctx: &mut Ctx) {
     run_trace(ctx);
     run_varlen(ctx);
     run_tamper(ctx);
+    run_forge(ctx);
 }
